@@ -42,8 +42,8 @@ ASSUMPTIONS = [
     "success indication of an mboot call = no exception, a truthy/non-None return value and status_code == SUCCESS (status_code is the error channel when cmd_exception is off)",
     "zero-length SDP writes, trust-provisioning/EL2GO commands and the BUSPAL/SDIO/CAN transports are not generated",
 ]
-FLOORS = {"fault:fired": 0.15, "multipacket": 0.05, "t:mb_serial": 0.08, "t:mb_hid": 0.05, "t:sdp_uart": 0.01, "t:sdp_hid": 0.01, "faultfree": 0.01,
-          "fault:nak": 0.0005, "fault:abort": 0.0005, "outcome:success": 0.02, "outcome:raised": 0.1, "device_error_status": 0.01}
+FLOORS = {"fault:fired": 0.075, "multipacket": 0.025, "t:mb_serial": 0.04, "t:mb_hid": 0.025, "t:sdp_uart": 0.005, "t:sdp_hid": 0.005, "faultfree": 0.005,
+          "fault:nak": 0.00025, "fault:abort": 0.00025, "outcome:success": 0.01, "outcome:raised": 0.05, "device_error_status": 0.005}
 
 MB_SUCCESS = 0
 ERR_STATUSES = [1, 4, 102, 10000, 10001, 10200, 10201, 0xDEADBEEF]
